@@ -36,13 +36,17 @@ def stepLine (_ : Unit) (line : String) : Unit × String :=
     match words line with
     | op :: rest =>
       let (limit, rest) : Option Int × List String :=
-        if op = "fd" then (rest.head?.bind String.toInt?, rest.tail) else (none, rest)
+        if op = "fd" || op = "fdv" || op = "sn" || op = "vsn" then (rest.head?.bind String.toInt?, rest.tail)
+        else (none, rest)
       match rest with
       | f :: as => do
         let fmt ← (parseBytes? f).map charsOfBytes
         let args ← as.mapM parseArg
         match op with
         | "pf" => pure (showOutcome (printf fmt args))
+        -- probes of finding C06-star-width-int-min (`*` width = INT_MIN): the model would go on with a
+        -- width of 2^31 (star_width_int_min_witness); the line is not compared, do not build 2 GiB of padding
+        | "pfmin" => pure "int-min-star"
         | "sp" | "spv" =>
           match vsprintf fmt args with
           | some (buf, ret) => pure (showRes ret buf)
@@ -52,6 +56,21 @@ def stepLine (_ : Unit) (line : String) : Unit × String :=
           match vfdprintf (if l < 0 then none else some l.toNat) (-1) fmt args with
           | some (out, ret) => pure (showRes ret out)
           | none => pure (showOutcome (printf fmt args))
+        | "fdv" => do
+          let l ← limit
+          match fdprintf (if l < 0 then none else some l.toNat) (-1) fmt args with
+          | some (out, ret) => pure (showRes ret out)
+          | none => pure (showOutcome (printf fmt args))
+        | "sn" | "vsn" => do
+          -- the harness hands over an allocation of exactly `size` bytes filled with a5
+          let l ← limit
+          let mem := List.replicate l.toNat (Char.ofNat 0xa5)
+          match (if op = "sn" then snprintf mem l.toNat fmt args else vsnprintf mem l.toNat fmt args) with
+          | some (buf, ret) => pure (showRes ret buf)
+          | none =>
+            match printf fmt args with
+            | .done _ _ => pure "fault"
+            | o => pure (showOutcome o)
         | "iso" =>
           match Iso.isoFormat Iso.glibcPtr fmt args with
           | some out => pure (showRes out.length out)
